@@ -673,7 +673,8 @@ fn main() {
             };
         }
         evaluations += 1;
-        if rng.chance(1, 2) {
+        // under C14 only the h2c pairs matter (peer limits, transfers keep moving)
+        if args.prop != "C14" && rng.chance(1, 2) {
             let case = case_h1_h1(&mut ctx, &mut rng, &sizes, &mut fails, &mut dist);
             if samples.len() < 4 {
                 samples.push(json!({"case": case}));
@@ -721,7 +722,9 @@ fn finish(args: &verif_harness::Args, evaluations: u64, dist: &BTreeMap<String, 
     // at most 3 failures per class
     let mut per: BTreeMap<String, usize> = BTreeMap::new();
     let mut out = vec![];
-    for f in fails {
+    // C14 reports the peer-limit and liveness classes; byte-exactness classes belong to C01
+    let relevant = |class: &str| args.prop != "C14" || class.starts_with("h2c-") || class.starts_with("h1-h2c-") || class == "worker-died" || class == "rig-setup";
+    for f in fails.iter().filter(|f| relevant(&f.class)) {
         let n = per.entry(f.class.clone()).or_insert(0);
         *n += 1;
         if *n <= 3 {
